@@ -49,6 +49,8 @@ def main(argv=None) -> int:
     modname, rule, exhaustive = TABLE[pid]
     mod = importlib.import_module(f"harness.{modname}")
     chk = Check(pid, a.tier, seed)
+    from . import tlc as _tlc
+    _tlc.COVERAGE = (a.tier == "thorough")
     try:
         if a.replay:
             from .common import WORK
